@@ -398,6 +398,7 @@ pub fn generate(rng: &mut Rng, tier: Tier, long_uptime: bool) -> Scenario {
         *rng.pick(&[Mode::Scalar, Mode::Bar, Mode::Item, Mode::Mixed])
     };
     let spec = NodeSpec { kind, params: Params::new(n, 1, 1, 2.0), mode, dflt: false };
+    let giant_ok = matches!(kind, Kind::Sma | Kind::Mad | Kind::Min | Kind::Max | Kind::FastStoch | Kind::Roc | Kind::Er) && !long_uptime;
     let need = need(kind, n) as usize;
     let mut ops = vec![];
     let mut desc = World::random_desc(rng);
@@ -448,6 +449,31 @@ pub fn generate(rng: &mut Rng, tier: Tier, long_uptime: bool) -> Scenario {
                 _ => rng.range(0, 3 * n + 50),
             };
             feed_ticks(&mut ops, &mut w, &plan, rng, k, &mut shifts);
+            // near-overflow values (|x| = 1.5e308, finite): only for the kinds whose unchanged arithmetic
+            // survives them, and with strictly alternating signs so that no partial sum of the window exceeds
+            // one giant (two same-signed giants in one window would overflow legitimately). The pair
+            // (+G at t, -G at exactly t+n) makes the evicted and the incoming value both extreme.
+            if giant_ok && rng.chance(0.06) {
+                let g = 1.5e308f64;
+                let mut sign = if rng.chance(0.5) { 1.0 } else { -1.0 };
+                let events = rng.range(1, 3);
+                for _ in 0..events {
+                    let gap = match rng.below(3) {
+                        0 => 1,
+                        1 => n,
+                        _ => rng.range(1, 2 * n + 2),
+                    };
+                    ops.push(Op::Feed { n: 0, x: Input::scalar(sign * g), f: Fault::Huge });
+                    sign = -sign;
+                    for _ in 1..gap {
+                        ops.push(Op::Feed { n: 0, x: w.clean(), f: Fault::Clean });
+                    }
+                    ops.push(Op::Feed { n: 0, x: Input::scalar(sign * g), f: Fault::Huge });
+                    sign = -sign;
+                    let k = rng.range(0, n + 2);
+                    feed_ticks(&mut ops, &mut w, &FaultPlan::none(), rng, k, &mut shifts);
+                }
+            }
             // bias: an outlier right before the restart (it must be gone n ticks later)
             if !fault_free && rng.chance(0.3) {
                 let f = *rng.pick(&[Fault::Spike10, Fault::Spike1e3, Fault::Spike1e6]);
